@@ -29,14 +29,38 @@ def theory_hash():
     return _TH
 
 
+_PRUNED = False
+
+
+def _cache_dir():
+    """one sub-directory per state of the Coq development; the sub-directories of earlier states are useless (every
+    entry is keyed by the hash of all theories) and are removed, oldest first, beyond the three most recent"""
+    global _PRUNED
+    d = os.path.join(CACHE_DIR, theory_hash()[:16])
+    os.makedirs(d, exist_ok=True)
+    if not _PRUNED:
+        _PRUNED = True
+        try:
+            import shutil
+            os.utime(d, None)
+            subs = sorted((x for x in os.listdir(CACHE_DIR)), key=lambda x: os.path.getmtime(os.path.join(CACHE_DIR, x)))
+            for x in subs[:-3]:
+                px = os.path.join(CACHE_DIR, x)
+                if px != d:
+                    shutil.rmtree(px, ignore_errors=True) if os.path.isdir(px) else os.remove(px)
+        except OSError:
+            pass
+    return d
+
+
 def cached_eval(terms, header):
     """coqio.eval_cases with an on-disk cache"""
-    os.makedirs(CACHE_DIR, exist_ok=True)
+    cdir = _cache_dir()
     keys = [hashlib.sha256((theory_hash() + header + t).encode()).hexdigest()[:32] for t in terms]
     out = [None] * len(terms)
     todo = []
     for i, k in enumerate(keys):
-        p = os.path.join(CACHE_DIR, k + ".json")
+        p = os.path.join(cdir, k + ".json")
         if os.path.exists(p):
             try:
                 out[i] = json.load(open(p))
@@ -48,10 +72,10 @@ def cached_eval(terms, header):
         res = coqio.eval_cases([terms[i] for i in todo], header=header)
         for i, r in zip(todo, res):
             out[i] = r
-            tmp = os.path.join(CACHE_DIR, keys[i] + f".{os.getpid()}.tmp")
+            tmp = os.path.join(cdir, keys[i] + f".{os.getpid()}.tmp")
             with open(tmp, "w") as f:
                 json.dump(r, f)
-            os.replace(tmp, os.path.join(CACHE_DIR, keys[i] + ".json"))
+            os.replace(tmp, os.path.join(cdir, keys[i] + ".json"))
     return out, len(todo)
 
 
